@@ -2,7 +2,7 @@
    n evaluations of its body with $repeat bound to 0..n-1, in index order, in place; the loops of the model are
    shown equal to that declarative reading, errors included. *)
 From Coq Require Import String Ascii List ZArith Bool Lia.
-From Bkl Require Import Model.Value Model.Merge Model.Str Model.Eval Proofs.MapsProofs Proofs.RepeatProofs.
+From Bkl Require Import Model.Value Model.Merge Model.Str Model.Eval Proofs.MapsProofs Proofs.RepeatProofs Proofs.YamlProofs.
 Import ListNotations.
 Local Open Scope string_scope.
 Local Open Scope list_scope.
@@ -87,4 +87,141 @@ Proof. intro H. destruct v as [|b|z|g|s|l0|vm]; try reflexivity. unfold entry_pa
 Corollary entry_bad_count f ec vm r :
   lookup "$repeat" vm = Some r -> (forall n, r <> VInt n) -> entry_parts f ec (VMap vm) = Err EInvalidType.
 Proof. intros H Hn. unfold entry_parts. rewrite H. destruct r; try reflexivity. now elim (Hn z). Qed.
+
+(* ---- maps: the $repeat pass over the entries, then $encode / $decode / $value / plain ---- *)
+Definition repeat_step (f : nat) (ec : ectx) (acc : res emap) (kv : string * value) : res emap :=
+     do a <- acc;
+     let '(k, v) := kv in
+     match v with
+     | VMap vm =>
+         match lookup "$repeat" vm with
+         | Some r =>
+             let body := VMap (remove "$repeat" vm) in
+             do idx <- match r with VInt n => Ok (range n) | _ => Err EInvalidType end;
+             do mm <- fold_left (fun acc2 i =>
+                        do a2 <- acc2;
+                        let ec' := insert "$repeat" (VInt i) ec in
+                        do v2 <- p2' f ec' body;
+                        match v2 with
+                        | VNull => Ok a2
+                        | _ => do k2 <- p2' f ec' (VStr k);
+                               match k2 with VStr k3 => Ok (insert k3 v2 a2) | _ => Err EInvalidType end
+                        end) idx (Ok []);
+             Ok (fold_left (fun a3 kv2 => insert (fst kv2) (snd kv2) a3) mm a)
+         | None => Ok (insert k v a)
+         end
+     | _ => Ok (insert k v a)
+     end.
+Definition repeat_pass (f : nat) (ec : ectx) (m : emap) : res emap := fold_left (repeat_step f ec) m (Ok []).
+
+(* what index i of a map entry  k: {$repeat: n, ...body}  contributes: nothing when the body evaluates to null,
+   else the pair (evaluated key, evaluated body) - the key is evaluated with the same binding, so k: "$repeat" or an
+   interpolation of it names the copies apart *)
+Definition map_copy (f : nat) (ec : ectx) (k : string) (body : value) (i : Z) : res (list (string * value)) :=
+  let ec' := insert "$repeat" (VInt i) ec in
+  do v2 <- p2' f ec' body;
+  match v2 with
+  | VNull => Ok []
+  | _ => do k2 <- p2' f ec' (VStr k); match k2 with VStr k3 => Ok [(k3, v2)] | _ => Err EInvalidType end
+  end.
+
+Lemma map_inner_loop_spec f ec k body idx : forall a,
+  fold_left (fun acc2 i =>
+     do a2 <- acc2;
+     let ec' := insert "$repeat" (VInt i) ec in
+     do v2 <- p2' f ec' body;
+     match v2 with
+     | VNull => Ok a2
+     | _ => do k2 <- p2' f ec' (VStr k);
+            match k2 with VStr k3 => Ok (insert k3 v2 a2) | _ => Err EInvalidType end
+     end) idx (Ok a)
+  = do ps <- map_res (map_copy f ec k body) idx; Ok (fold_left ins (concat ps) a).
+Proof.
+  induction idx as [|i idx IH]; intro a; [reflexivity|]. cbn [fold_left map_res bind]. unfold map_copy at 1.
+  cbn zeta. destruct (p2' f (insert "$repeat" (VInt i) ec) body) as [v2|e]; cbn [bind]; [|apply fold_err_stays; reflexivity].
+  destruct v2; try (rewrite IH; destruct (map_res _ idx); reflexivity);
+    (destruct (p2' f (insert "$repeat" (VInt i) ec) (VStr k)) as [k2|e]; cbn [bind]; [|apply fold_err_stays; reflexivity];
+     destruct k2; try (apply fold_err_stays; reflexivity);
+     rewrite IH; destruct (map_res _ idx); reflexivity).
+Qed.
+
+(* the entry  k: {$repeat: n, ...body}  : the copies for i = 0..n-1, later copies overriding earlier ones with the
+   same evaluated key, all of them overriding what the map held under those keys *)
+Theorem repeat_step_entry f ec a k vm n :
+  lookup "$repeat" vm = Some (VInt n) ->
+  repeat_step f ec (Ok a) (k, VMap vm) =
+    do ps <- map_res (map_copy f ec k (VMap (remove "$repeat" vm))) (range n);
+    Ok (fold_left ins (fold_left ins (concat ps) []) a).
+Proof.
+  intro H. unfold repeat_step. cbn [bind]. rewrite H. cbn [bind]. rewrite map_inner_loop_spec.
+  destruct (map_res _ (range n)); reflexivity.
+Qed.
+
+Theorem repeat_step_other f ec a k v :
+  (forall vm, v = VMap vm -> lookup "$repeat" vm = None) -> repeat_step f ec (Ok a) (k, v) = Ok (insert k v a).
+Proof.
+  intro H. unfold repeat_step. cbn [bind]. destruct v as [|b|z|g|s|l|vm]; try reflexivity. now rewrite (H vm eq_refl).
+Qed.
+
+(* a map carrying $encode: its content is evaluated, VALIDATED, and only then encoded *)
+Theorem p2_map_encode f ec m m1 v :
+  repeat_pass f ec m = Ok m1 -> lookup "$encode" m1 = Some v ->
+  p2' (Datatypes.S f) ec (VMap m) =
+    do obj2 <- p2' f ec (VMap (remove "$encode" m1)); do _ <- validate o obj2; encode_any o obj2 v.
+Proof.
+  intros H1 H2. cbn [p2].
+  match goal with |- bind ?X _ = _ => change X with (repeat_pass f ec m) end.
+  rewrite H1. cbn [bind]. rewrite H2. reflexivity.
+Qed.
+
+(* so whatever an $encode map evaluates to was produced from a subject that validation accepted *)
+Corollary p2_encode_validated f ec m m1 v r :
+  repeat_pass f ec m = Ok m1 -> lookup "$encode" m1 = Some v -> p2' (Datatypes.S f) ec (VMap m) = Ok r ->
+  exists obj2, p2' f ec (VMap (remove "$encode" m1)) = Ok obj2 /\ validate o obj2 = Ok tt /\ encode_any o obj2 v = Ok r.
+Proof.
+  intros H1 H2. rewrite (p2_map_encode f ec m m1 v H1 H2).
+  destruct (p2' f ec (VMap (remove "$encode" m1))) as [obj2|e]; [|discriminate]. cbn [bind].
+  destruct (validate o obj2) as [[]|e] eqn:Ev; [|discriminate]. cbn [bind]. intro H. exists obj2. auto.
+Qed.
+
+(* a map without $repeat-valued entries passes through the first pass unchanged (it is re-inserted key by key) *)
+Lemma repeat_pass_plain_gen f ec m : forall a,
+  Forall (fun kv => match snd kv with VMap vm => lookup "$repeat" vm = None | _ => True end) m ->
+  fold_left (repeat_step f ec) m (Ok a) = Ok (fold_left (fun a kv => insert (fst kv) (snd kv) a) m a).
+Proof.
+  induction m as [|[k v] m IH]; intros a H; [reflexivity|].
+  inversion H as [|? ? Hk Hm]; subst. cbn [fold_left]. unfold repeat_step at 2. cbn [bind fst snd] in *.
+  destruct v as [|b|z|g|s|l|vm]; try apply (IH _ Hm).
+  destruct (lookup "$repeat" vm); [discriminate Hk|]. apply (IH _ Hm).
+Qed.
+
+Lemma repeat_pass_plain f ec m :
+  Forall (fun kv => match snd kv with VMap vm => lookup "$repeat" vm = None | _ => True end) m ->
+  repeat_pass f ec m = Ok (fold_left (fun a kv => insert (fst kv) (snd kv) a) m []).
+Proof. apply repeat_pass_plain_gen. Qed.
+
+(* the list form: [{$encode: v}, ...entries] *)
+Theorem p2_list_encode f ec l l1 enc :
+  pop_list_map_value l "$encode" = Ok (enc, l1) -> is_null enc = false ->
+  p2' (Datatypes.S f) ec (VList l) = do obj2 <- p2' f ec (VList l1); do _ <- validate o obj2; encode_any o obj2 enc.
+Proof. intros H1 H2. cbn [p2]. rewrite H1. cbn [bind]. rewrite H2. reflexivity. Qed.
+
+Corollary p2_list_encode_validated f ec l l1 enc r :
+  pop_list_map_value l "$encode" = Ok (enc, l1) -> is_null enc = false -> p2' (Datatypes.S f) ec (VList l) = Ok r ->
+  exists obj2, p2' f ec (VList l1) = Ok obj2 /\ validate o obj2 = Ok tt /\ encode_any o obj2 enc = Ok r.
+Proof.
+  intros H1 H2. rewrite (p2_list_encode f ec l l1 enc H1 H2).
+  destruct (p2' f ec (VList l1)) as [obj2|e]; [|discriminate]. cbn [bind].
+  destruct (validate o obj2) as [[]|e] eqn:Ev; [|discriminate]. cbn [bind]. intro H. exists obj2. auto.
+Qed.
+
+(* the clean case: a (sorted) map with no $repeat-valued entry and an $encode key *)
+Theorem p2_encode_validated_plain f ec m v r :
+  ssorted m -> Forall (fun kv => match snd kv with VMap vm => lookup "$repeat" vm = None | _ => True end) m ->
+  lookup "$encode" m = Some v -> p2' (Datatypes.S f) ec (VMap m) = Ok r ->
+  exists obj2, p2' f ec (VMap (remove "$encode" m)) = Ok obj2 /\ validate o obj2 = Ok tt /\ encode_any o obj2 v = Ok r.
+Proof.
+  intros Hs Hr Hl Hp. apply (p2_encode_validated f ec m m v r); [|exact Hl|exact Hp].
+  rewrite (repeat_pass_plain f ec m Hr). f_equal. apply (fold_ins_sorted m []). exact Hs.
+Qed.
 End NR.
